@@ -210,6 +210,7 @@ func c19ObjectValue(c *verifsim.Chooser) (interface{}, string) {
 }
 
 func (p *c19) execute(cs *c19Case, pol *verifsim.OrderPolicy) *c19Obs {
+	stillAlive()
 	verifsim.SetMapPolicy(pol)
 	defer verifsim.SetMapPolicy(&verifsim.OrderPolicy{Kind: verifsim.OrdAsc})
 	ob := &c19Obs{}
